@@ -804,6 +804,8 @@ func (v *Verifier) execInstr(fn *ssa.Function, s *State, ins ssa.Instruction, fc
 		r := s.alloc("chan", 1)
 		s.heap["chan#closed"] = Store(s.heapArr("chan#closed", ArrSort(SInt, SBool)), r, False)
 		s.heap["chan#running"] = Store(s.heapArr("chan#running", runningSort), r, False)
+		// buffer size (cap(ch) in specifications)
+		s.heap["chan#cap"] = Store(s.heapArr("chan#cap", ArrSort(SInt, SInt)), r, v.reg(s, t.Size).term())
 		v.set(s, t, scalar(t.Type(), r))
 	case *ssa.MakeInterface:
 		v.set(s, t, v.makeIface(s, v.reg(s, t.X), t.X.Type(), t.Type()))
